@@ -3,7 +3,7 @@ from plib import *
 from props.builder import PProg, in_subgroup
 from props.common import ProgRunner
 
-EXTRA_AUDITS = ["ComposerTie"]
+EXTRA_AUDITS = ["ComposerTie", "WidgetTie"]
 LEAN_TARGETS = ["Plonk.Props.C13", "Plonk.Props.ComposerTie", "Plonk.Props.WidgetTie"]
 PROFILE = "checked"
 ASSUMPTIONS = ["JubJub group structure (order 8*r_J) as an explicit hypothesis of the 'P in [8]E <-> [r_J]P = O' corollary",
